@@ -95,6 +95,28 @@ def phase_order(ck, ctx, info):
         ck.ob("phase-order", "lookup-arg-is-target", any(field_chain(strip(y))[1][-1:] == ["targets"] for y in walk(e) if y[0] == "field"), "the names resolved in phase 2 are the elements of args.targets", span=t["loc"], fn=BUILD)
 
 
+def defaults_current(ck, ctx, info, rule, key):
+    """every read of State.default after phase 1 (the emptiness test and the iteration handed to want_file) is of whichever
+    State is current: its provenance joins the first load and the reload, never the first load alone"""
+    b, cfg, R = info["b"], info["cfg"], info["R"]
+    loads = sorted(info["loads"], key=lambda x: sum(1 for y in info["loads"] if cfg.dominates(y[0], x[0])))
+    l1, l2 = loads[0], loads[-1]
+    st_uses = []
+    for bb, t in Q.sites_in(b, "std::vec::Vec::is_empty"):
+        e = strip(R.arg(bb, 0))
+        if field_chain(e)[1][-1:] == ["default"]:
+            st_uses.append((bb, e))
+    for bb, t in Q.sites_in(b, "work::Work::want_file"):
+        if cfg.dominates(bb, info["p1"][0]):
+            continue
+        e = R.arg(bb, 1)
+        for y in walk(e):
+            if y[0] == "field" and field_chain(strip(y))[1][-1:] == ["default"]:
+                st_uses.append((bb, strip(y)))
+    okd = len(st_uses) >= 2 and all(any(c[3] == l2[0] for c in calls_in(e)) and any(c[3] == l1[0] for c in calls_in(e)) for bb, e in st_uses)
+    ck.ob(rule, key, okd, "State.default read in phase 2 (%d reads: emptiness test, iteration) is that of whichever State is current (first load or reload)" % len(st_uses), span=b.loc, fn=BUILD)
+
+
 def reload(ck, ctx, info):
     F = ctx.F
     b, cfg, R = info["b"], info["cfg"], info["R"]
@@ -171,14 +193,7 @@ def reload(ck, ctx, info):
                     if e[0] == "call" and e[1] == "work::Work::new" and e[3] == n2[0]:
                         assigned = True
     ck.ob("reload", "assigned-to-phase2-work", assigned, "the reloaded Work replaces the variable `%s` that phase 2 runs" % (b.local_name(wlocal) if wlocal is not None else "?"), span=n2[1]["loc"], fn=BUILD)
-    # defaults of the fresh state are the ones used: state local reassigned from the second load
-    st_uses = []
-    for bb, t in Q.sites_in(b, "std::vec::Vec::is_empty"):
-        e = strip(R.arg(bb, 0))
-        if field_chain(e)[1][-1:] == ["default"]:
-            st_uses.append((bb, e))
-    okd = bool(st_uses) and all(any(c[3] == l2[0] for c in calls_in(e)) and any(c[3] == l1[0] for c in calls_in(e)) for bb, e in st_uses)
-    ck.ob("reload", "defaults-follow-reload", okd, "state.default read in phase 2 is that of whichever State is current (first load or reload)", span=b.loc, fn=BUILD)
+    defaults_current(ck, ctx, info, "reload", "defaults-follow-reload")
     # same manifest name for both loads and the lookup
     for which, site in (("first", l1), ("reload", l2)):
         clo = F.body(site[2]) if site[2] else None
